@@ -11,7 +11,7 @@ import sys, os
 sys.path.insert(0, os.path.dirname(os.path.dirname(os.path.abspath(__file__))))
 import ast
 import z3
-from pyvc.numexec import Unsupported
+from pyvc.numexec import Unsupported, ANALYSIS
 from pyvc.solve import Obl, static, undecided
 from pyvc.runner import main
 from pyvc.source import NotFound
@@ -410,7 +410,7 @@ def build(run):
                   ("operation.Op.is_close", C14.verify_is_close)):
         try:
             f(run)
-        except Unsupported as ex_:
+        except ANALYSIS as ex_:
             run.add(undecided(f"{fq}/subset", f"outside the verified subset: {ex_}", fn=fq, meta={"replay": rp}))
         except NotFound as ex_:
             run.add(static(f"{fq}/exists", False, f"function under contract not found: {ex_}", fn=fq))
